@@ -151,4 +151,21 @@ var plans = map[string]Plan{
 			{Name: "safe-programs", Pkg: "./checks/c09", Run: "^TestSafePrograms$", Rapid: true, Shards: [2]int{4, 8}, Checks: [2]int{1000, 10000}},
 		},
 	},
+	"C20": {
+		Level: "exploration",
+		Rule: "cases are (base multi-file Thrift program, edit script) committed as HEAD~ and HEAD of a scratch git repository: 1-5 files in nested directories with includes along a DAG; 0-7 edits drawn from 5 breaking kinds (remove service, remove method, add required field to an existing struct, optional->required, change a field's declared type name) and 14 compatible kinds (add optional field / method / service / struct / enum / constant / typedef / file / include, reorder, required->optional, delete struct, delete file, remove include); 13+3 enumerated pairs. The real thriftbreak binary is run in readable and --json mode (and again on reordered renderings). " +
+			"Oracle: multiset of (file, kind, subject names) parsed from the output == the multiset known by construction from the edit script; exit status != 0 iff non-empty. " +
+			"Non-trivial: >=1 breaking edit or >=2 compatible edits. Distinct: SHA-256 of the JSON case (all file texts of both versions).",
+		Assumptions: []string{
+			"the five message phrases and %q-quoted names are the tool's interface; a file attribution is correct if it is the repo-relative path or the base name",
+			"ambiguous edits (a name moved between files, required field added with a default, renames) are not generated",
+		},
+		Prebuild: []Prebuild{{Name: "thriftbreak", Pkg: "go.uber.org/thriftrw/cmd/thriftbreak"}},
+		Units: []Unit{
+			{Name: "edit-scripts", Pkg: "./checks/c20", Run: "^TestEditScripts$", Rapid: true, Shards: [2]int{12, 16}, Checks: [2]int{150, 2000}},
+			{Name: "rename-like", Pkg: "./checks/c20", Run: "^TestRenameLike$", Rapid: true, Shards: [2]int{2, 4}, Checks: [2]int{60, 300}},
+			{Name: "fixed-pairs", Pkg: "./checks/c20", Run: "^TestFixedPairs$", Shards: [2]int{1, 1}},
+			{Name: "delete-and-add", Pkg: "./checks/c20", Run: "^TestDeleteAndAdd$", Shards: [2]int{1, 1}},
+		},
+	},
 }
